@@ -27,6 +27,13 @@ def impl(py):
     s = TimeScale()
     s.domain([a, b])
     out = {}
+    # the method tickMethod picks for the ORIGINAL domain (public method of TimeScale)
+    meth = None
+    try:
+        from labella.scale import d3_scaleExtent, dt2milli
+        meth = s.tickMethod(list(map(dt2milli, d3_scaleExtent(s.domain()))), _m(py))
+    except Exception:  # noqa
+        meth = None
     try:
         out["ticks"] = [to_us(x) for x in (s.ticks() if py["m"] is None else s.ticks(py["m"]))]
     except Exception as e:  # noqa
@@ -39,6 +46,21 @@ def impl(py):
         out["nice"] = [to_us(x) for x in s.domain()]
     except Exception as e:  # noqa
         out["nice"] = "raise:" + type(e).__name__
+    # the ticks of the NICED domain (same count): what "tick step" is measured on when
+    # the original domain has fewer than two ticks (oracle only; not part of the tie)
+    try:
+        out["nticks"] = [to_us(x) for x in (s.ticks() if py["m"] is None else s.ticks(py["m"]))]
+    except Exception as e:  # noqa
+        out["nticks"] = "raise:" + type(e).__name__
+    # ... and under the SAME method as the original domain, exactly as TimeScale.ticks
+    # enumerates them (interval.range(lo, hi + 1 ms, skip)): these contain both new ends
+    try:
+        from labella.scale import d3_scaleExtent, dt2milli, milli2dt
+        ext = list(map(dt2milli, d3_scaleExtent(s.domain())))
+        skip = meth[1] if meth[1] >= 1 else 1
+        out["nticks_same"] = [to_us(x) for x in meth[0].range(milli2dt(ext[0]), milli2dt(ext[1] + 1), skip)]
+    except Exception as e:  # noqa
+        out["nticks_same"] = "raise:" + type(e).__name__
     return out
 
 
@@ -93,6 +115,17 @@ def oracle(case, io):
     if nlo > lo or nhi < hi:
         return "an end moved inward: [%s, %s] -> [%s, %s]" % tuple(of_us(x).isoformat() for x in (lo, hi, nlo, nhi))
     t = io["ticks"]
+    if not (isinstance(t, list) and len(t) >= 2):
+        # fewer than two ticks on the original domain (small m): the tick step is read
+        # off the ticks of the niced domain (same m), which contain both new ends
+        # (Props/C14.v C14T_tnice_row_bounds)
+        t = io.get("nticks_same")
+        if isinstance(t, list) and len(t) >= 2 and isinstance(n, list):
+            if nlo not in t or nhi not in t:
+                return "the ticks of the niced domain (same method) do not contain both new ends %s, %s" % (
+                    of_us(nlo).isoformat(), of_us(nhi).isoformat())
+        else:
+            t = io.get("nticks")
     if isinstance(t, list) and len(t) >= 2:
         gaps = [y - x for x, y in zip(t, t[1:])]
         step = max(gaps)
